@@ -51,7 +51,8 @@ func matchSubdomain(domain, pattern string) bool {
 		}
 		p := patComp[i]
 		if p == "*" {
-			return true
+			// wildcard label matches all remaining (sub)domain labels only when it is the leftmost label of pattern
+			return i == len(patComp)-1
 		}
 		if p != v {
 			return false
